@@ -1109,7 +1109,9 @@ class SymReal:
         return concretize(self)
 
     def __int__(self):
-        raise TypeError("int() on a symbolic value: shadow int() in the module under test")
+        # int() reached from C code (e.g. numpy storing into an integer array): Python's truncation, decided by forking over the
+        # feasible integer values (the path condition records the choice); repository modules themselves see the int shadow
+        return concretize(sym_int(self))
 
     def __float__(self):
         raise TypeError("float() on a symbolic value reached a C boundary (unmodelled numpy/float path)")
